@@ -15,6 +15,14 @@ type KafkaClient struct {
 	m *consumer.KafkaClient
 }
 
+// ConfigureKafkaClient runs the real Configure of a fresh Kafka consumer module on configRoot (viper).
+func ConfigureKafkaClient(app *protocol.ApplicationContext, name, configRoot string) *KafkaClient {
+	return &KafkaClient{m: consumer.VerifConfigureKafkaClient(app, name, configRoot)}
+}
+
+// ClusterAndTopic reports the cluster and offsets topic as Configure left them.
+func (c *KafkaClient) ClusterAndTopic() (string, string) { return c.m.VerifClusterAndTopic() }
+
 // NewKafkaClient builds the module without connecting anywhere.
 func NewKafkaClient(app *protocol.ApplicationContext, name, cluster, allowlist, denylist string) *KafkaClient {
 	return &KafkaClient{m: consumer.VerifNewKafkaClient(app, name, cluster, allowlist, denylist)}
